@@ -4,8 +4,8 @@ CONSTANTS
   SyncNotify = TRUE
   UnregUnderRead = FALSE
   HbLeak = FALSE
-  ResendHoldsSession = FALSE
-  RetentionHoldsRead = TRUE
+  ResendHoldsSession = TRUE
+  RetentionHoldsRead = FALSE
 INVARIANTS LocksConsistent
 PROPERTIES WriteReturns AllReturn
 CHECK_DEADLOCK TRUE
